@@ -42,19 +42,23 @@ static std::string check_perm(const KV &c) {
 }
 
 // ---- (b) all (offset,size) pairs x 6 operations on one generated state/data
+// caller buffers start at every address alignment 0..7 (word-at-a-time fast paths depend on it)
 struct Guarded {
-    Bytes mem; size_t n;
-    explicit Guarded(size_t n_, uint8_t fill) : mem(n_ + 16, 0xC3), n(n_) { memset(mem.data() + 8, fill, n); }
-    uint8_t *p() { return mem.data() + 8; }
-    bool intact() const { for (int i = 0; i < 8; ++i) if (mem[i] != 0xC3 || mem[8 + n + i] != 0xC3) return false; return true; }
+    Bytes mem; size_t n, a;
+    explicit Guarded(size_t n_, uint8_t fill, unsigned align = 0) : mem(n_ + 40, 0xC3), n(n_) {
+        a = 8 + ((8 - ((uintptr_t)mem.data() & 7)) & 7) + (align & 7);     // (mem.data() + a) % 8 == align
+        memset(mem.data() + a, fill, n);
+    }
+    uint8_t *p() { return mem.data() + a; }
+    bool intact() const { for (size_t i = 0; i < a; ++i) if (mem[i] != 0xC3) return false; for (size_t i = a + n; i < mem.size(); ++i) if (mem[i] != 0xC3) return false; return true; }
 };
 
-static std::string one_byteop(int op, unsigned off, unsigned size, const Bytes &st, const Bytes &data) {
+static std::string one_byteop(int op, unsigned off, unsigned size, const Bytes &st, const Bytes &data, unsigned ialign = 0, unsigned oalign = 0) {
     Bytes model = st;
     Obj<ascon_state_t> so;
     ascon_state_t &s = *so.get();
     load(&s, st);
-    Guarded in(size, 0), out(size, 0x5A);
+    Guarded in(size, 0, ialign), out(size, 0x5A, oalign);
     memcpy(in.p(), data.data(), size);
     Bytes expect_out;
     bool has_out = false;
@@ -75,7 +79,7 @@ static std::string one_byteop(int op, unsigned off, unsigned size, const Bytes &
     Bytes got = view(&s);
     ascon_free(&s);
     static const char *names[] = {"add", "overwrite", "zero", "extract", "extract_and_add", "extract_and_overwrite", "extract_and_overwrite(in-place)"};
-    std::string where = std::string(names[op]) + "(offset=" + num(off) + ",size=" + num(size) + ")";
+    std::string where = std::string(names[op]) + "(offset=" + num(off) + ",size=" + num(size) + (ialign || oalign ? ", input at 8n+" + num(ialign) + ", output at 8n+" + num(oalign) : "") + ")";
     if (got != model) return where + ": state " + hex(got) + " want " + hex(model);
     if (has_out && memcmp(out.p(), expect_out.data(), size) != 0) return where + ": output " + hex(out.p(), size) + " want " + hex(expect_out);
     if (!in.intact() || !out.intact()) return where + ": guard bytes around a buffer were modified";
@@ -88,12 +92,16 @@ static rc::Gen<KV> gen_bytes_all() {
 }
 static std::string check_bytes_all(const KV &c) {
     Bytes st = tobytes(c, "state"), data = tobytes(c, "data");
-    // optional restriction written by the shrink step for readability
+    unsigned base = data[0] & 7;
     for (unsigned off = 0; off <= 40; ++off)
         for (unsigned size = 0; off + size <= 40; ++size)
             for (int op = 0; op < 7; ++op) {
-                std::string e = one_byteop(op, off, size, st, data);
-                if (!e.empty()) return e;
+                if (op == 2 && false) continue;
+                // all eight alignments of the input buffer; the output buffer's alignment rotates against it
+                for (unsigned al = 0; al < (op == 2 ? 1u : 8u); ++al) {
+                    std::string e = one_byteop(op, off, size, st, data, al, (al + base) & 7);
+                    if (!e.empty()) return e;
+                }
             }
     return "";
 }
